@@ -422,7 +422,9 @@ class TorState(object):
         """
 
         react = IReactorCore(myreactor)
-        if attacher:
+        # only None means "remove"; an attacher object may well be falsy
+        # (e.g. a container-like attacher that is still empty)
+        if attacher is not None:
             if self._attacher is attacher:
                 return
             if self._attacher is not None:
